@@ -138,6 +138,23 @@ var timeTableWide = []timeEntry{
 	{"2262", mustTime("2262-04-11T23:47:16Z")},
 }
 
+// instants far beyond what a count of nanoseconds since 1970 holds in 64 bits (signed: 1677 .. 2262,
+// unsigned: .. 2554), down to year 1 and up to year 9999, with the boundaries themselves
+var timeTableFar = []timeEntry{
+	{"year1", mustTime("0001-01-01T00:00:00Z")},
+	{"1500", mustTime("1500-06-01T00:00:00Z")},
+	{"1969", mustTime("1969-12-31T23:59:59.999999999Z")},
+	{"epoch", mustTime("1970-01-01T00:00:00Z")},
+	{"2020", mustTime("2020-02-29T12:00:00.5Z")},
+	{"maxint64ns", mustTime("2262-04-11T23:47:16.854775807Z")},
+	{"maxint64ns+1", mustTime("2262-04-11T23:47:16.854775808Z")},
+	{"2300", mustTime("2300-01-01T00:00:00Z")},
+	{"maxuint64ns", mustTime("2554-07-21T23:34:33.709551615Z")},
+	{"maxuint64ns+1", mustTime("2554-07-21T23:34:33.709551616Z")},
+	{"3000", mustTime("3000-01-01T00:00:00Z")},
+	{"9999", mustTime("9999-12-31T23:59:59.999999999Z")},
+}
+
 // zone offsets in seconds; index 0 is UTC.  The last entry (a sub-minute offset west of UTC) is only
 // used by the witness of a known finding: generators draw from the first genZones entries.
 var zoneTable = []int{0, 2 * 3600, -7 * 3600, 5*3600 + 45*60, 19*60 + 32, -(4*3600 + 56*60 + 2)}
@@ -173,6 +190,10 @@ func NewUniverse(numTable, timeTable string) *Universe {
 		u.times = timeTableGeneral
 	case "wide":
 		u.times = timeTableWide
+	case "far":
+		u.times = timeTableFar
+	case "far1970": // the part of it for which index keys are claimed to follow the order
+		u.times = timeTableFar[3:]
 	case "soon":
 		// the general table plus one instant that lies a moment ahead of the wall clock when it is first
 		// used (an _expiresAt about to pass); it sorts after every past entry and before 2100
@@ -201,7 +222,10 @@ func NewUniverse(numTable, timeTable string) *Universe {
 	for ord := range u.times {
 		for z := range zoneTable {
 			t := u.timeOf(ord, z)
-			b, _ := t.MarshalJSON()
+			b, err := t.MarshalJSON()
+			if err != nil || len(b) < 2 {
+				continue // no RFC 3339 text (year beyond 9999 in this zone)
+			}
 			u.timeStr[string(b[1:len(b)-1])] = V{"timestr", ord, z}
 		}
 	}
